@@ -86,6 +86,7 @@ def run(tier, seed, drv):
                 drv.ask('j.reset')
             seen = set()
             shadow = {}
+            last_mtime = None
             steps = []
             nsteps = rng.randint(3, 10)
             base = json.dumps(gen_table(rng), ensure_ascii=rng.random() < 0.5)
@@ -122,6 +123,14 @@ def run(tier, seed, drv):
                 else:
                     with open(path, 'wb') as f:
                         f.write(content)
+                    # file metadata is part of the environment: restored backups, `cp -p`, clock steps
+                    r_ = rng.random()
+                    if r_ < 0.25:
+                        t_ = 1000000000 + rng.randint(0, 10 ** 6)
+                        os.utime(path, (t_, t_))
+                    elif r_ < 0.35 and last_mtime is not None:
+                        os.utime(path, ns=(last_mtime, last_mtime))
+                    last_mtime = os.stat(path).st_mtime_ns
                 # what json.load produces (the model's input)
                 try:
                     with open(path, 'r') as fp:
